@@ -45,6 +45,7 @@ type c06HS struct {
 	EIO     string // "4" | "3" | "" (absent)
 	B64     bool
 	J       string
+	Chunk   int // polling / jsonp: data requests without a declared length, body in pieces of this size (0 = declared)
 }
 
 func (h c06HS) String() string {
@@ -182,7 +183,7 @@ func (s *c06Sess) errs() []string {
 // the server refused it.
 func doHandshake(w *World, h c06HS) (*c06Sess, string) {
 	s := &c06Sess{hs: h}
-	o := ClientOpts{Rev: h.rev(), EIO: h.EIO, B64: h.B64, NoEIO: h.EIO == ""}
+	o := ClientOpts{Rev: h.rev(), EIO: h.EIO, B64: h.B64, NoEIO: h.EIO == "", Chunk: h.Chunk}
 	switch h.Carrier {
 	case "polling", "jsonp":
 		if h.Carrier == "jsonp" {
